@@ -145,12 +145,35 @@ class VStatic:
         return "VStatic(%s+%s:%s)" % (self.alloc, self.off, self.ty)
 
 
+class VBoxVal:
+    """a shared reference passed into an inlined callee: pointer to an immutable snapshot"""
+    __slots__ = ("val",)
+
+    def __init__(self, val):
+        self.val = val
+
+    def __repr__(self):
+        return "VBoxVal(%r)" % (self.val,)
+
+
 class VUninit:
     def __repr__(self):
         return "VUninit"
 
 
 UNINIT = VUninit()
+
+
+def contains_ref(v, depth=0):
+    if isinstance(v, VRef):
+        return True
+    if depth > 6:
+        return False
+    if isinstance(v, VAgg):
+        return any(contains_ref(x, depth + 1) for x in v.f.values())
+    if isinstance(v, VEnum):
+        return any(contains_ref(x, depth + 1) for pl in v.variants.values() for x in pl.values())
+    return False
 
 
 def strip_generics(path):
@@ -212,6 +235,11 @@ PANIC_FUNCS = (
     "std::process::abort", "core::intrinsics::abort",
     "core::num::overflow_panic::", "core::num::int_log10::panic_for_nonpositive_argument",
 )
+PANIC_BARE = {"panic_fmt", "panic", "panic_nounwind", "panic_nounwind_fmt", "panic_explicit", "unwrap_failed", "expect_failed",
+              "panic_bounds_check", "assert_failed", "assert_failed_inner", "panic_display", "panic_str_2015", "unreachable_display",
+              "slice_start_index_len_fail", "slice_end_index_len_fail", "slice_index_order_fail", "panic_cannot_unwind",
+              "panic_in_cleanup", "panic_misaligned_pointer_dereference", "panic_null_pointer_dereference", "panic_invalid_enum_construction",
+              "begin_panic", "handle_alloc_error_"}
 ALLOCFAIL_FUNCS = ("alloc::raw_vec::handle_error", "alloc::alloc::handle_alloc_error", "alloc::raw_vec::capacity_overflow")
 
 ERROR_CTOR = re.compile(
@@ -222,7 +250,7 @@ ERROR_CTOR = re.compile(
 
 
 class Encoder:
-    def __init__(self, fn, allocs, enums, name_prefix="", debug_assertions=False, unwind=0, bounds=None):
+    def __init__(self, fn, allocs, enums, name_prefix="", debug_assertions=False, unwind=0, bounds=None, resolver=None):
         self.fn = fn
         self.allocs = allocs
         self.enums = enums            # name -> {variant: discr}
@@ -240,7 +268,12 @@ class Encoder:
         self.ret_val = None
         self.stats = {"blocks": 0, "stmts": 0, "divmods": 0, "bitblasts": 0}
         self._divcache = {}
+        self._constcache = {}
         self.bounds = bounds or {}
+        self.resolver = resolver      # callable(callee text, nargs) -> Function | None
+        self.call_depth = 0
+        self.call_stack = []
+        self.inlined_calls = {}
 
     # ------------------------------------------------------------ helpers
     def add_def(self, defined, constraint):
@@ -600,8 +633,58 @@ class Encoder:
         m = re.match(r"^\{(alloc\d+)(?:\+0x[0-9a-f]+)?(?:<imm>)?: (.*)\}$", txt)
         if m:
             return VStatic(m.group(1), z3.IntVal(0), m.group(2))
+        # ranged-integer associated constants
+        mr = re.match(r"^(?:.*::)?(ri(?:8|16|32|64|128))::<(-?\d+), (-?\d+)>::(MIN_SELF|MAX_SELF)$", txt)
+        if mr and not self.debug_assertions:
+            val = int(mr.group(2)) if mr.group(4) == "MIN_SELF" else int(mr.group(3))
+            return VAgg({0: self.const_int(val, "i" + mr.group(1)[2:])}, tag=mr.group(1))
+        # named associated constant of an ADT (e.g. `jiff::civil::Time::MAX`): evaluate its initializer body
+        mn = re.match(r"^(?:.*::)?([A-Z][A-Za-z0-9]*)::([A-Z][A-Z0-9_]*)$", txt)
+        if mn and self.resolver is not None and self.lookup_enum(mn.group(1)) is None:
+            callee = self.resolver(txt, 0, named_const=(mn.group(1), mn.group(2)))
+            if callee is not None:
+                key = ("nc", mn.group(1), mn.group(2))
+                if key in self._constcache:
+                    return self._constcache[key]
+                saved = (self.fn, self.ret_cond, self.ret_val)
+                self.call_depth += 1
+                try:
+                    self.fn = callee
+                    rc, rv = self.eval_body(callee, [], z3.BoolVal(True))
+                finally:
+                    self.fn, self.ret_cond, self.ret_val = saved
+                    self.call_depth -= 1
+                if rc is not None:
+                    self._constcache[key] = rv
+                    return rv
+        mp = re.match(r"^(.*)::promoted\[(\d+)\]$", txt)
+        if mp and self.resolver is not None:
+            owner = strip_generics(mp.group(1))
+            callee = self.resolver(owner, 0, promoted=(owner.split("::")[-1], int(mp.group(2)), owner))
+            if callee is not None:
+                saved = (self.fn, self.ret_cond, self.ret_val)
+                self.call_depth += 1
+                try:
+                    self.fn = callee
+                    rc, rv = self.eval_body(callee, [], z3.BoolVal(True))
+                finally:
+                    self.fn, self.ret_cond, self.ret_val = saved
+                    self.call_depth -= 1
+                if rc is not None:
+                    return rv
+            return VOpaque("promoted")
         # unit-like ADT or enum variant constant, fn item, etc.
         path = strip_generics(txt)
+        if re.fullmatch(r"[A-Z][A-Za-z0-9_]*", path):
+            # bare (trimmed-path) enum variant such as `Day`: unique across the scanned enums?
+            owners = [en for en, vs in self.enums.items() if path in vs and path in UNIT_VARIANTS.get(en, ())]
+            if hint_ty:
+                h = strip_generics(hint_ty).split("::")[-1]
+                if h in owners:
+                    owners = [h]
+            if len(owners) == 1:
+                en = self.enums[owners[0]]
+                return VEnum(z3.IntVal(en[path]), {path: {}}, owners[0], en)
         segs = path.split("::")
         if len(segs) >= 2 and self.lookup_enum(segs[-2]) is not None and segs[-1] in self.lookup_enum(segs[-2]):
             return self.adt_value(txt, {})
@@ -725,6 +808,31 @@ class Encoder:
         raise Refuse("index into %r" % (arr,))
 
     def read(self, state, place):
+        if any(el[0] == "deref" for el in place.proj):
+            # walk manually so that snapshots (VBoxVal) can be dereferenced
+            v = state.get(place.local, UNINIT)
+            proj = list(place.proj)
+            k = 0
+            while k < len(proj):
+                el = proj[k]
+                if el[0] == "deref":
+                    if isinstance(v, VBoxVal):
+                        v = v.val
+                        k += 1
+                        continue
+                    if isinstance(v, VRef):
+                        v = self.read_path(state, v.local, list(v.proj))
+                        k += 1
+                        continue
+                    break
+                # consume a maximal run of non-deref projections
+                j = k
+                while j < len(proj) and proj[j][0] != "deref":
+                    j += 1
+                v = self.read_path({-1: v, **{kk: vv for kk, vv in state.items() if isinstance(kk, int)}}, -1, proj[k:j])
+                k = j
+            else:
+                return v
         c = self.canon(state, place)
         if c[0] == "opaque":
             if isinstance(c[1], VStatic):
@@ -832,6 +940,8 @@ class Encoder:
                 else:
                     vs[nm] = {k: self.merge(cond, pa.get(k, UNINIT), pb.get(k, UNINIT)) for k in set(pa) | set(pb)}
             return VEnum(d, vs, a.ty or b.ty, a.dmap or b.dmap)
+        if isinstance(a, VBoxVal) and isinstance(b, VBoxVal):
+            return VBoxVal(self.merge(cond, a.val, b.val))
         if isinstance(a, VOpaque) and isinstance(b, VOpaque):
             return a
         if isinstance(a, VRef) and isinstance(b, VRef):
@@ -878,6 +988,9 @@ class Encoder:
                 return v
             if isinstance(v, VInt) and (ty.startswith("*") or ty.startswith("&") or "NonNull" in ty):
                 return VOpaque("int-as-pointer")
+            if isinstance(v, VInt) and re.fullmatch(r"[A-Za-z_][A-Za-z_0-9:]*", ty) and self.lookup_enum(ty.split("::")[-1]) is None:
+                # integer -> single-field newtype (e.g. core::num::niche_types::Nanoseconds)
+                return VAgg({0: v}, tag=ty.split("::")[-1])
             if isinstance(v, VAgg):
                 # newtype transmutes (e.g. NonNull<T> <-> *const T) keep the payload
                 if len(v.f) == 1:
@@ -1016,6 +1129,10 @@ class Encoder:
                 return self.opaque_scalar(dest_ty, "unop on opaque")
             return self.unop(rv[1], a)
         if k in ("ref", "rawptr"):
+            if any(el[0] == "deref" for el in rv[2].proj):
+                base = state.get(rv[2].local, UNINIT)
+                if isinstance(base, VBoxVal) and not (k == "ref" and rv[1]):
+                    return VBoxVal(self.read(state, rv[2]))
             c = self.canon(state, rv[2])
             if c[0] == "opaque":
                 return c[1] if isinstance(c[1], VStatic) else VOpaque("ref-to-mem")
@@ -1083,13 +1200,16 @@ class Encoder:
         for p in PANIC_FUNCS:
             if sg.startswith(p):
                 return ("panic", "panic", sg)
+        lastseg = sg.split("::")[-1]
+        if lastseg in PANIC_BARE or sg.startswith(("panic_const::", "panicking::", "result::unwrap_failed", "option::unwrap_failed", "option::expect_failed", "result::expect_failed")):
+            return ("panic", "panic", sg)
         for p in ALLOCFAIL_FUNCS:
             if sg.startswith(p):
                 return ("panic", "allocfail", sg)
         if ERROR_CTOR.match(sg) or sg.endswith("::error::Error::from_args") or re.search(r"Error::(adhoc|adhoc_from_args|adhoc_from_static_str|range|shared)$", sg):
             self.opaque_calls[sg] = self.opaque_calls.get(sg, 0) + 1
             return ("value", VOpaque("error"))
-        if re.search(r"^QSELF\[.* as (jiff::)?error::ErrorContext\]::(context|with_context)$", sg):
+        if re.search(r"^QSELF\[.* as .*ErrorContext\]::(context|with_context)$", sg):
             self.opaque_calls[sg] = self.opaque_calls.get(sg, 0) + 1
             return ("value", VOpaque("error"))
         if sg in ("core::intrinsics::cold_path", "std::intrinsics::cold_path", "core::hint::cold_path"):
@@ -1101,12 +1221,211 @@ class Encoder:
             r = self.int_method(state, m.group(1), m.group(2), args)
             if r is not None:
                 return ("value", r)
-        m = re.match(r"^(?:core|std)::intrinsics::(\w+)$", sg)
-        if m:
+        m = re.match(r"^(?:(?:core|std)::)?(?:intrinsics::)?(\w+)$", sg)
+        if m and (("intrinsics::" in sg) or m.group(1) in ("ctlz", "ctlz_nonzero", "cttz", "cttz_nonzero", "ctpop", "cold_path", "likely", "unlikely",
+                                                            "saturating_add", "saturating_sub", "wrapping_add", "wrapping_sub", "wrapping_mul",
+                                                            "unchecked_div", "unchecked_rem", "exact_div", "black_box")):
             r = self.intrinsic(state, m.group(1), args, dest_ty)
             if r is not None:
                 return ("value", r)
+        r = self.enum_cmp_model(state, func, args)
+        if r is not None:
+            return r
+        r = self.rangeint_model(state, func, args)
+        if r is not None:
+            return r
+        r = self.conversion_call(state, func, args, pc)
+        if r is not None:
+            return r
+        r = self.inline_call(state, func, sg, args, pc)
+        if r is not None:
+            return r
         raise Refuse("call to %s" % sg)
+
+    def enum_cmp_model(self, state, func, args):
+        """derived PartialEq/PartialOrd/Ord on field-less enums = comparison of discriminants"""
+        m = re.match(r"^<(.+) as (?:core::cmp::|std::cmp::)?(PartialOrd|Ord|PartialEq)>::(partial_cmp|cmp|eq|ne|lt|le|gt|ge)$", func.strip())
+        if not m or len(args) != 2:
+            return None
+        vs = []
+        for x in args:
+            v = self.operand(state, x)
+            if isinstance(v, VBoxVal):
+                v = v.val
+            if isinstance(v, VRef):
+                v = self.read_path(state, v.local, list(v.proj))
+            vs.append(v)
+        if not all(isinstance(v, VEnum) and v.dmap is not None and all(not pl for pl in v.variants.values()) for v in vs):
+            return None
+        a, b = vs[0].discr, vs[1].discr
+        op = m.group(3)
+        self.notes.append("hand-modelled derived comparison on field-less enum %s" % vs[0].ty)
+        if op in ("partial_cmp", "cmp"):
+            d = self.name_ite(z3.If(a < b, z3.IntVal(-1), z3.If(a == b, z3.IntVal(0), z3.IntVal(1))), "cmp")
+            o = VEnum(d, {}, "Ordering", STD_ENUMS["Ordering"])
+            if op == "cmp":
+                return ("value", o)
+            return ("value", VEnum(z3.IntVal(1), {"Some": {0: o}}, "Option", STD_ENUMS["Option"]))
+        t = {"eq": a == b, "ne": a != b, "lt": a < b, "le": a <= b, "gt": a > b, "ge": a >= b}[op]
+        return ("value", VBool(t))
+
+    RI_CALL = re.compile(r"^(?:jiff::)?(?:util::)?(?:rangeint::)?(ri(?:8|16|32|64|128))::<(-?\d+|i\d+::MIN), (-?\d+|i\d+::MAX)>::(\w+)(?:::<(.*)>)?$")
+
+    RI_CONV = re.compile(r"^<(ri(?:8|16|32|64|128))<(-?\d+), (-?\d+)> as (?:\w+::)*(RInto|RFrom)<(ri(?:8|16|32|64|128))<(-?\d+), (-?\d+)>>>::(rinto|rfrom)$")
+
+    def rangeint_conv(self, state, func, args):
+        m = self.RI_CONV.match(func.strip())
+        if not m or self.debug_assertions or len(args) != 1:
+            return None
+        tgt = m.group(5) if m.group(4) == "RInto" else m.group(1)
+        v = self.operand(state, args[0])
+        if not (isinstance(v, VAgg) and 0 in v.f and isinstance(v.f[0], VInt)):
+            return None
+        self.notes.append("hand-modelled ranged-integer conversion: %s" % m.group(8))
+        return ("value", VAgg({0: self.cast(v.f[0], "i" + tgt[2:], "IntToInt")}, tag=tgt))
+
+    def rangeint_model(self, state, func, args):
+        r = self.rangeint_conv(state, func, args)
+        if r is not None:
+            return r
+        """hand-written semantics (release build, no debug assertions) of the few generic ranged-integer
+        operations the MIR inliner sometimes leaves as calls. Listed in the evidence notes."""
+        m = self.RI_CALL.match(func.strip())
+        if not m or self.debug_assertions:
+            return None
+        rty, meth = "i" + m.group(1)[2:], m.group(4)
+        lo = ty_range(rty)[0] if "MIN" in m.group(2) else int(m.group(2))
+        hi = ty_range(rty)[1] if "MAX" in m.group(3) else int(m.group(3))
+
+        def val_of(v):
+            if isinstance(v, VAgg) and 0 in v.f and isinstance(v.f[0], VInt) and len(v.f) == 1:
+                return v.f[0]
+            if isinstance(v, VInt):
+                return v
+            return None
+
+        def mk(t, l, h):
+            # NB: intervals must hold for *all* inputs (definitions are global, not path-conditional),
+            # so the payload is the wrapped machine value, not "the value assuming the check passed"
+            return VAgg({0: self.wrap(t, l, h, rty)}, tag=m.group(1))
+
+        if meth == "N" and m.group(5) is not None and re.fullmatch(r"-?\d+", m.group(5).strip()):
+            k = int(m.group(5))
+            return ("value", VAgg({0: self.const_int(k, rty)}, tag=m.group(1)))
+        if meth in ("div_ceil", "rem_ceil", "div_floor", "rem_floor", "min", "max") and len(args) == 2:
+            ops = [self.operand(state, x) for x in args]
+            a, b = val_of(ops[0]), val_of(ops[1])
+            if a is None or b is None:
+                return None
+            b = VInt(b.t, rty, b.lo, b.hi)
+            a = VInt(a.t, rty, a.lo, a.hi)
+            self.notes.append("hand-modelled ranged-integer call: %s::%s" % (m.group(1), meth))
+            if meth in ("min", "max"):
+                t = z3.If(a.t < b.t, a.t, b.t) if meth == "min" else z3.If(a.t > b.t, a.t, b.t)
+                l = min(a.lo, b.lo) if meth == "min" else max(a.lo, b.lo)
+                h = min(a.hi, b.hi) if meth == "min" else max(a.hi, b.hi)
+                return ("value", VAgg({0: VInt(self.name_int(t, "mm"), rty, l, h)}, tag=m.group(1)))
+            if meth in ("div_ceil", "rem_ceil"):
+                r = self.binop("Div" if meth == "div_ceil" else "Rem", a, b)
+                return ("value", VAgg({0: r}, tag=m.group(1)))
+            cb = self.as_const(b.t)
+            if cb is None or cb <= 0:
+                raise Refuse("ranged %s by non-constant or non-positive divisor" % meth)
+            q, r, qlo, qhi = self.floor_divmod_const(a.t, a.lo, a.hi, cb)
+            if meth == "div_floor":
+                return ("value", VAgg({0: VInt(q, rty, qlo, qhi)}, tag=m.group(1)))
+            return ("value", VAgg({0: VInt(r, rty, 0, cb - 1)}, tag=m.group(1)))
+        if meth in ("abs", "signum") and len(args) == 1:
+            a = val_of(self.operand(state, args[0]))
+            if a is None:
+                return None
+            self.notes.append("hand-modelled ranged-integer call: %s::%s" % (m.group(1), meth))
+            if meth == "abs":
+                return ("value", VAgg({0: self.wrap(z3.If(a.t < 0, -a.t, a.t), 0, max(abs(a.lo), abs(a.hi)), rty)}, tag=m.group(1)))
+            return ("value", VAgg({0: VInt(self.name_int(z3.If(a.t > 0, z3.IntVal(1), z3.If(a.t < 0, z3.IntVal(-1), z3.IntVal(0))), "sg"), rty, -1, 1)}, tag=m.group(1)))
+        if meth in ("try_checked_add", "try_checked_sub", "try_checked_mul", "checked_add", "checked_sub", "checked_mul"):
+            ops = [self.operand(state, x) for x in args]
+            a = val_of(ops[0])
+            b = val_of(ops[-1])
+            if a is None or b is None:
+                return None
+            op = meth.split("_")[-1]
+            if op == "add":
+                t, l, h = a.t + b.t, a.lo + b.lo, a.hi + b.hi
+            elif op == "sub":
+                t, l, h = a.t - b.t, a.lo - b.hi, a.hi - b.lo
+            else:
+                t, l, h = self.mul(a, b)
+            t = self.name_int(t, "ri")
+            ok = self.name_bool(z3.And(t >= lo, t <= hi), "riok")
+            self.notes.append("hand-modelled ranged-integer call: %s::%s" % (m.group(1), meth))
+            if meth.startswith("try_"):
+                en = STD_ENUMS["Result"]
+                return ("value", VEnum(z3.If(ok, z3.IntVal(0), z3.IntVal(1)), {"Ok": {0: mk(t, l, h)}, "Err": {0: VOpaque("error")}}, "Result", en))
+            en = STD_ENUMS["Option"]
+            return ("value", VEnum(z3.If(ok, z3.IntVal(1), z3.IntVal(0)), {"Some": {0: mk(t, l, h)}, "None": {}}, "Option", en))
+        return None
+
+    CONV_INTO = re.compile(r"^<(.+) as (?:core::convert::|std::convert::)?Into<(.+)>>::into$")
+    CONV_FROM = re.compile(r"^<(.+) as (?:core::convert::|std::convert::)?From<(.+)>>::from$")
+
+    def conversion_call(self, state, func, args, pc):
+        """`<A as Into<T>>::into(v)` inside a generic body: dispatch on the runtime value's type tag
+        to the concrete `impl From<S> for T` found in the jiff MIR dump"""
+        f = func.strip()
+        m = self.CONV_INTO.match(f)
+        target = None
+        if m:
+            target = m.group(2)
+        else:
+            m2 = self.CONV_FROM.match(f)
+            if m2:
+                target = m2.group(1)
+        if target is None or self.resolver is None or len(args) != 1:
+            return None
+        v = self.operand(state, args[0])
+        tag = v.tag if isinstance(v, VAgg) else (v.ty if isinstance(v, VEnum) else None)
+        tgt = strip_generics(target).split("::")[-1]
+        if tag == tgt:
+            return ("value", v)     # reflexive impl<T> From<T> for T
+        if tag is None:
+            return None
+        callee = self.resolver("from", 1, conv=(tag, tgt))
+        if callee is None:
+            return None
+        return self.inline_fn(state, callee, "From<%s> for %s" % (tag, tgt), [v], pc)
+
+    def inline_call(self, state, func, sg, args, pc):
+        if self.resolver is None:
+            return None
+        callee = self.resolver(func, len(args))
+        if callee is None:
+            return None
+        if self.call_depth >= 12 or callee.name in self.call_stack:
+            raise Refuse("call depth/recursion at %s" % sg)
+        argv = [self.operand(state, x) for x in args]
+        return self.inline_fn(state, callee, sg, argv, pc)
+
+    def inline_fn(self, state, callee, sg, argv, pc):
+        if self.call_depth >= 12 or callee.name in self.call_stack:
+            raise Refuse("call depth/recursion at %s" % sg)
+        argv = [VBoxVal(self.read_path(state, v.local, list(v.proj))) if isinstance(v, VRef) else v for v in argv]
+        self.inlined_calls[sg] = self.inlined_calls.get(sg, 0) + 1
+        saved = (self.fn, self.ret_cond, self.ret_val)
+        self.call_depth += 1
+        self.call_stack.append(callee.name)
+        try:
+            self.fn = callee
+            ret_cond, ret_val = self.eval_body(callee, argv, pc)
+        finally:
+            self.fn, self.ret_cond, self.ret_val = saved
+            self.call_depth -= 1
+            self.call_stack.pop()
+        if ret_cond is None:
+            return ("diverge",)
+        if contains_ref(ret_val):
+            raise Refuse("callee %s returns a reference" % sg)
+        return ("value", ret_val, ret_cond)
 
     def int_method(self, state, ty, meth, args):
         a = [self.operand(state, x) for x in args]
@@ -1135,6 +1454,23 @@ class Encoder:
             return a[0]
         if name in ("cold_path", "assert_inhabited", "assert_zero_valid", "assert_mem_uninitialized_valid"):
             return VAgg({})
+        if name in ("ctlz", "ctlz_nonzero", "cttz", "cttz_nonzero", "ctpop") and len(a) == 1 and isinstance(a[0], VInt):
+            bits, _ = INT_TYPES[a[0].ty]
+            bs = self.bits_of(a[0])
+            if name == "ctpop":
+                t = z3.Sum([z3.If(b, 1, 0) if not isinstance(b, bool) else z3.IntVal(int(b)) for b in bs])
+                return VInt(self.name_int(t, "pop"), "u32", 0, bits)
+            order = list(reversed(range(bits))) if name.startswith("ctlz") else list(range(bits))
+            t = z3.IntVal(bits)
+            for n, i in reversed(list(enumerate(order))):
+                b = bs[i]
+                if b is True:
+                    t = z3.IntVal(n)
+                elif b is False:
+                    pass
+                else:
+                    t = z3.If(b, z3.IntVal(n), t)
+            return VInt(self.name_int(t, "clz"), "u32", 0, bits)
         if name == "abort":
             return None
         return None
@@ -1207,12 +1543,25 @@ class Encoder:
         return order
 
     def run(self):
-        fn = self.fn
-        order = self.topo()
         init = self.declare_inputs()
+        argv = [init[loc] for (loc, _) in self.fn.args]
+        rc, rv = self.eval_body(self.fn, argv, z3.BoolVal(True))
+        if rc is None:
+            raise Refuse("no return reachable")
+        self.ret_cond, self.ret_val = rc, rv
+        return self
+
+    def eval_body(self, fn, argv, pc0):
+        """symbolically execute `fn` on argument values under path condition pc0;
+        returns (return condition, merged return value) or (None, None) if it never returns"""
+        order = self.topo()
+        if len(argv) != len(fn.args):
+            raise Refuse("arity mismatch calling %s" % fn.name)
+        init = {loc: v for (loc, _), v in zip(fn.args, argv)}
         incoming = {b: [] for b in order}   # block -> [(cond, state)]
-        incoming["bb0"].append((z3.BoolVal(True), init))
+        incoming["bb0"].append((pc0, init))
         rets = []
+        pfx = "" if self.call_depth == 0 else "%s: " % fn.name.split("::")[-1]
         for b in order:
             inc = [(c, s) for (c, s) in incoming[b] if not z3.is_false(c)]
             incoming[b] = None
@@ -1231,19 +1580,18 @@ class Encoder:
                 for st in blk.stmts:
                     self.stats["stmts"] += 1
                     cur_st = st
-                    pc = self.statement(state, st, pc, b)
+                    pc = self.statement(state, st, pc, pfx + b)
                 cur_st = blk.term
-                self.terminator(state, blk.term, pc, b, incoming, rets)
+                self.terminator(state, blk.term, pc, pfx + b, incoming, rets)
             except Refuse as e:
                 raise Refuse("%s in %s at %s: %r" % (e, self.fn.name, b, cur_st))
         if not rets:
-            raise Refuse("no return reachable")
-        self.ret_cond = z3.Or([c for c, _ in rets]) if len(rets) > 1 else rets[0][0]
+            return None, None
+        rc = z3.Or([c for c, _ in rets]) if len(rets) > 1 else rets[0][0]
         v = rets[-1][1]
         for c, rv in reversed(rets[:-1]):
             v = self.merge(c, rv, v)
-        self.ret_val = v
-        return self
+        return self.name_bool(rc, "rc"), v
 
     def merge_states(self, inc):
         keys = set()
@@ -1328,7 +1676,10 @@ class Encoder:
         if k == "goto":
             go(term[1], pc)
         elif k == "return":
-            rets.append((pc, state.get(0, UNINIT)))
+            rv = state.get(0, UNINIT)
+            if isinstance(rv, VRef) and self.call_depth > 0:
+                rv = VBoxVal(self.read_path(state, rv.local, list(rv.proj)))
+            rets.append((pc, rv))
         elif k == "unreachable":
             self.obligations.append(Obligation("unreachable", "%s: unreachable" % bname, pc, bname))
         elif k == "resume":
@@ -1405,10 +1756,12 @@ class Encoder:
             if r[0] == "panic":
                 self.obligations.append(Obligation(r[1], "%s: %s" % (bname, r[2]), pc, bname))
                 return
+            if r[0] == "diverge":
+                return
             if dest is not None:
                 self.write(state, dest, r[1])
             if "return" in tg:
-                go(tg["return"], pc)
+                go(tg["return"], r[2] if len(r) > 2 else pc)
         else:
             raise Refuse("terminator " + k)
 
@@ -1425,6 +1778,7 @@ class Encoder:
 
 # ---------------------------------------------------------------- enum table from source
 
+UNIT_VARIANTS = {}
 ENUM_RE = re.compile(r"\benum\s+([A-Za-z_][A-Za-z_0-9]*)\s*(?:<[^{]*>)?\s*\{")
 
 
@@ -1485,6 +1839,8 @@ def scan_enums(paths):
                         if mv and not mm.group(2):
                             nxt = int(mv.group(1))
                         variants[mm.group(1)] = nxt
+                        if not mm.group(2):
+                            UNIT_VARIANTS.setdefault(name, set()).add(mm.group(1))
                         nxt += 1
                     if not ok or not variants:
                         continue
